@@ -114,6 +114,12 @@ def write_cursor(ctx, cfg, rule="cursor-discipline"):
                             r = range_of(dst[3][1])
                             if r and r[0] == "range" and r[1] == va and r[2] == ("bin", "Add", va, inc) and ("len", src) == inc:
                                 ok = True
+                        # message[index..][..len]: the same bytes
+                        if is_index_call(dst) and is_index_call(dst[3][0]) and dst[3][0][3][0] == ("arg", 3):
+                            r1 = range_of(dst[3][0][3][1])
+                            r2 = range_of(dst[3][1])
+                            if r1 and r2 and r1 == ("from", va) and r2[0] == "to" and r2[1] == inc and ("len", src) == inc:
+                                ok = True
                 what = "length of the key just copied to message[index..index+len]"
         ctx.ob(rule, "_write_message:advance@%d" % n, ok, "index += %s" % what if ok else "the output index advances by %s, which is not the length just written at message[index..]" % what, where(fn, st), cfg)
     return n
